@@ -396,14 +396,86 @@ def _nt_parse(interp, call, module):
     return name, tuple(flds), defaults
 
 
+def _annotated_fields(interp, k):
+    """(name, default expression | None) of the annotated class-level names of class k, in order (dataclass / NamedTuple fields)."""
+    out = []
+    for st in k.node.body:
+        if isinstance(st, ast.AnnAssign) and isinstance(st.target, ast.Name):
+            ann = unparse(st.annotation)
+            if ann.startswith(('ClassVar', 'typing.ClassVar')):
+                continue
+            out.append((st.target.id, st.value))
+    return out
+
+
 def nt_spec(interp, cls):
-    """Field names (and defaults) when class cls derives from a namedtuple(...) made in its class statement."""
+    """Field names (and defaults) when class cls derives from a namedtuple(...) made in its class statement, or from
+    typing.NamedTuple with annotated fields."""
     for k in interp.p.mro(cls):
         for b in k.node.bases:
             got = _nt_parse(interp, b, k.module)
             if got is not None:
                 return got[1], got[2]
+            if unparse(b).split('.')[-1] == 'NamedTuple':
+                flds = _annotated_fields(interp, k)
+                names = tuple(n for n, d in flds)
+                defaults = []
+                for n, d in flds:
+                    if d is not None:
+                        defaults.append(interp.ev(d, {}, k.module))
+                return names, tuple(defaults)
     return None
+
+
+def dataclass_spec(interp, cls):
+    """(fields [(name, default expr | None, module)], options) when cls (or a base) is decorated with @dataclass; fields of
+    the bases come first, as dataclasses orders them."""
+    found = None
+    fields = {}
+    for k in reversed(interp.p.mro(cls)):
+        for d in k.node.decorator_list:
+            dn = unparse(d.func) if isinstance(d, ast.Call) else unparse(d)
+            if dn.split('.')[-1] == 'dataclass':
+                opts = {}
+                if isinstance(d, ast.Call):
+                    for kw in d.keywords:
+                        if kw.arg and isinstance(kw.value, ast.Constant):
+                            opts[kw.arg] = kw.value.value
+                if k is cls or found is None:
+                    found = opts
+                for n, dflt in _annotated_fields(interp, k):
+                    fields[n] = (n, dflt, k.module)
+    if found is None:
+        return None
+    return list(fields.values()), found
+
+
+def dataclass_bind(interp, cls, spec, args, kwargs, node):
+    fields, opts = spec
+    names = [n for n, d, m in fields]
+    if len(args) > len(names):
+        raise AbsRaise('TypeError', node, implicit=True, msg='too many arguments')
+    vals = dict(zip(names, args))
+    for k, v in kwargs.items():
+        if k not in names or k in vals:
+            raise AbsRaise('TypeError', node, implicit=True, msg=f'unexpected or repeated field {k}')
+        vals[k] = v
+    for n, d, m in fields:
+        if n in vals:
+            continue
+        if d is None:
+            raise AbsRaise('TypeError', node, implicit=True, msg=f'missing field {n}')
+        if isinstance(d, ast.Call) and unparse(d.func).split('.')[-1] == 'field':
+            kw = {k.arg: k.value for k in d.keywords}
+            if 'default_factory' in kw:
+                vals[n] = interp.apply(interp.ev(kw['default_factory'], {}, m), [], {}, node)
+            elif 'default' in kw:
+                vals[n] = interp.ev(kw['default'], {}, m)
+            else:
+                raise AbsRaise('TypeError', node, implicit=True, msg=f'missing field {n}')
+        else:
+            vals[n] = interp.ev(d, {}, m)
+    return {n: vals[n] for n in names}
 
 
 def nt_bind(fields, defaults, args, kwargs, node):
@@ -853,10 +925,117 @@ class AbsInt:
                         raise AbsRaise(type(ex).__name__, t, implicit=True)
         elif isinstance(st, ast.Assert):
             pass
+        elif isinstance(st, ast.Match):
+            subject = self.ev(st.subject, env, m)
+            for case in st.cases:
+                if self.match_pattern(case.pattern, subject, env, m):
+                    if case.guard is None or self.truth(self.ev(case.guard, env, m), case.guard):
+                        self.ex_block(case.body, env, m)
+                        break
         elif isinstance(st, ast.With):
             self.ex_with(st, 0, env, m)
         else:
             raise Unsupported(f'abstract interpreter: unsupported statement {type(st).__name__} at line {st.lineno}')
+
+    def match_pattern(self, pat, subject, env, m):
+        """Structural pattern matching (PEP 634) on abstract values; captures are bound in env."""
+        if isinstance(pat, ast.MatchValue):
+            want = self.ev(pat.value, env, m)
+            r = self.compare(ast.Eq(), subject, want, pat)
+            return r if r is not None else self.decide(pat, f'match value {unparse(pat.value)}')
+        if isinstance(pat, ast.MatchSingleton):
+            r = self.compare(ast.Is(), subject, pat.value, pat)
+            return r if r is not None else self.decide(pat, f'match singleton {pat.value!r}')
+        if isinstance(pat, ast.MatchAs):
+            if pat.pattern is not None and not self.match_pattern(pat.pattern, subject, env, m):
+                return False
+            if pat.name is not None:
+                env[pat.name] = subject
+            return True
+        if isinstance(pat, ast.MatchOr):
+            return any(self.match_pattern(p_, subject, env, m) for p_ in pat.patterns)
+        if isinstance(pat, ast.MatchSequence):
+            if isinstance(subject, (str, bytes, bytearray)) or type(subject).__name__ == 'SStr':
+                return False
+            al = _as_alist(subject)
+            if al is None or al.kind in ('bytes', 'bytearray', 'set', 'frozenset', 'iterator', 'generator'):
+                if isinstance(subject, Opaque):
+                    raise Unsupported(f'sequence pattern on {subject!r} at line {pat.lineno}')
+                return False
+            if al.has_var():
+                raise Unsupported(f'sequence pattern on a sequence of symbolic length at line {pat.lineno}')
+            items = list(al.items)
+            stars = [i for i, p_ in enumerate(pat.patterns) if isinstance(p_, ast.MatchStar)]
+            if not stars:
+                if len(items) != len(pat.patterns):
+                    return False
+                return all(self.match_pattern(p_, x, env, m) for p_, x in zip(pat.patterns, items))
+            k = stars[0]
+            before, after = pat.patterns[:k], pat.patterns[k + 1:]
+            if len(items) < len(before) + len(after):
+                return False
+            mid = items[len(before):len(items) - len(after)]
+            ok = all(self.match_pattern(p_, x, env, m) for p_, x in zip(before, items)) and \
+                all(self.match_pattern(p_, x, env, m) for p_, x in zip(after, items[len(items) - len(after):]))
+            if ok and pat.patterns[k].name is not None:
+                env[pat.patterns[k].name] = AList(mid, 'list')
+            return ok
+        if isinstance(pat, ast.MatchMapping):
+            d = subject.d if isinstance(subject, ADict) else subject if isinstance(subject, dict) else None
+            if d is None:
+                return False
+            used = []
+            for kexp, vp in zip(pat.keys, pat.patterns):
+                kv = self.ev(kexp, env, m)
+                if not _hashable_const(kv) or kv not in d:
+                    return False
+                used.append(kv)
+                if not self.match_pattern(vp, d[kv], env, m):
+                    return False
+            if pat.rest is not None:
+                env[pat.rest] = ADict({k_: v_ for k_, v_ in d.items() if k_ not in used})
+            return True
+        if isinstance(pat, ast.MatchClass):
+            cls = self.ev(pat.cls, env, m)
+            fake = ast.copy_location(ast.Call(func=ast.Name(id='isinstance', ctx=ast.Load()),
+                                              args=[ast.Name(id='__subject__', ctx=ast.Load()), pat.cls], keywords=[]), pat)
+            ast.fix_missing_locations(fake)
+            r = self.isinstance_([subject, cls], fake)
+            if r is None or isinstance(r, Opaque):
+                r = self.decide(pat, f'match class {unparse(pat.cls)}')
+            if not r:
+                return False
+            names = []
+            if pat.patterns:
+                if cls in (int, str, float, bool, bytes, bytearray, list, tuple, dict, set, frozenset):
+                    if len(pat.patterns) != 1:
+                        raise AbsRaise('TypeError', pat, implicit=True)
+                    return self.match_pattern(pat.patterns[0], subject, env, m) and \
+                        all(self.match_pattern(p_, self._getattr_value(subject, a_, pat), env, m) for a_, p_ in zip(pat.kwd_attrs, pat.kwd_patterns))
+                margs = None
+                if isinstance(subject, AObj):
+                    margs = subject.attrs.get('__fields__') or subject.attrs.get('__dataclass_fields__')
+                    if margs is None and subject.cls is not None:
+                        ma = self.p.class_attr(subject.cls, '__match_args__')
+                        if ma is not None:
+                            margs = self.f.try_eval(ma, {}, subject.cls.module)
+                if not isinstance(margs, (tuple, list)) or len(margs) < len(pat.patterns):
+                    raise AbsRaise('TypeError', pat, implicit=True, msg='positional sub-patterns without __match_args__')
+                names = list(margs[:len(pat.patterns)])
+            for a_, p_ in list(zip(names, pat.patterns)) + list(zip(pat.kwd_attrs, pat.kwd_patterns)):
+                try:
+                    v = self._getattr_value(subject, a_, pat)
+                except AbsRaise:
+                    return False
+                if not self.match_pattern(p_, v, env, m):
+                    return False
+            return True
+        raise Unsupported(f'pattern {type(pat).__name__} at line {pat.lineno}')
+
+    def _getattr_value(self, obj, name, node):
+        e = ast.copy_location(ast.Attribute(value=ast.Name(id='__ga_obj__', ctx=ast.Load()), attr=name, ctx=ast.Load()), node)
+        ast.fix_missing_locations(e)
+        return self._v_Attribute(e, {'__ga_obj__': obj}, None)
 
     def ex_with(self, st, i, env, m):
         """with item_i, ...: body.  A context manager that is a @contextmanager generator of the program is
@@ -1007,6 +1186,8 @@ class AbsInt:
                 raise Unsupported(f'abstract store into {base!r}[{key!r}] at line {t.lineno}')
         elif isinstance(t, ast.Attribute):
             base = self.ev(t.value, env, m)
+            if isinstance(base, AObj) and base.attrs.get('__frozen__') is True and '__dataclass_fields__' in base.attrs:
+                raise AbsRaise('AttributeError', t, implicit=True, msg='cannot assign to field of a frozen dataclass')
             if isinstance(base, AObj):
                 if base.cls is not None:
                     o, sa = self.p.lookup_method(base.cls, '__setattr__')
@@ -2112,7 +2293,10 @@ class AbsInt:
             r = self.method(base, e.func.attr, args, kwargs, e)
             if r is not _NO:
                 return r
-            f = self._v_Attribute(e.func, env, m) if not isinstance(base, (AList, ADict, dict, list, tuple, str, set, Opaque, AV)) else Opaque('method')
+            if isinstance(base, AV) or (isinstance(base, tuple) and base and base[0] in ('repattern',)):
+                f = ('attr', base, e.func.attr)         # already evaluated: do not evaluate the receiver twice
+            else:
+                f = self._v_Attribute(e.func, env, m) if not isinstance(base, (AList, ADict, dict, list, tuple, str, set, Opaque)) else Opaque('method')
         else:
             f = self.ev(e.func, env, m)
         return self.apply(f, args, kwargs, e)
@@ -2126,6 +2310,34 @@ class AbsInt:
             return self.call_function(f[2], [f[1]] + list(args), dict(kwargs), node)
         if isinstance(f, tuple) and len(f) == 3 and f[0] == 'attr' and isinstance(f[2], str):
             base, name = f[1], f[2]
+            if base is int and name == 'from_bytes' and args:
+                order = args[1] if len(args) > 1 else kwargs.get('byteorder', 'big')
+                if order in ('big', 'little') and not kwargs.get('signed'):
+                    items = self.iterate(args[0], node)
+                    if order == 'little':
+                        items = list(reversed(items))
+                    acc = 0
+                    for it in items:
+                        acc = self.binop(ast.BitOr(), self.binop(ast.LShift(), acc, 8, node), it, node) if not (isinstance(acc, int) and acc == 0) else it
+                    return acc
+            if isinstance(base, (int, AV)) and not isinstance(base, bool) and name == 'to_bytes' and args and isinstance(args[0], int):
+                order = args[1] if len(args) > 1 else kwargs.get('byteorder', 'big')
+                if order in ('big', 'little') and not kwargs.get('signed'):
+                    n_ = args[0]
+                    if isinstance(base, int):
+                        try:
+                            return AList(list(base.to_bytes(n_, order)), 'bytes')
+                        except OverflowError:
+                            raise AbsRaise('OverflowError', node, implicit=True)
+                    if not base.is_top:
+                        lo, hi = base.interval()
+                        if lo < 0 or hi >= 256 ** n_:
+                            if hi < 0 or lo >= 256 ** n_ or self.decide(node, 'to_bytes: value does not fit'):
+                                raise AbsRaise('OverflowError', node, implicit=True)
+                    out = [self.binop(ast.BitAnd(), self.binop(ast.RShift(), base, 8 * (n_ - 1 - i), node), 0xff, node) for i in range(n_)]
+                    if order == 'little':
+                        out.reverse()
+                    return AList(out, 'bytes')
             if base is dict and name == 'fromkeys' and 1 <= len(args) <= 2 and not kwargs:
                 keys = self.iterate(args[0], node, keep_vars=True)
                 if all(_hashable_const(k) for k in keys):
@@ -2144,6 +2356,16 @@ class AbsInt:
                 return r if r is not None else self.decide(node, 'membership')
             if isinstance(base, (AList, ADict, str)) or (isinstance(base, tuple) and base and base[0] == 'repattern') or hasattr(base, 'segs'):
                 return self.method(base, name, list(args), dict(kwargs), node)
+        if isinstance(f, tuple) and len(f) == 3 and f[0] == 'partial':
+            pa, pk = f[2]
+            kw = dict(pk)
+            kw.update(kwargs)
+            return self.apply(f[1], list(pa) + list(args), kw, node)
+        if isinstance(f, tuple) and len(f) == 3 and f[0] == 'methodcaller' and len(args) == 1:
+            ma, mk = f[2]
+            callee = self._v_Attribute(ast.copy_location(ast.Attribute(value=ast.Name(id='__mc_obj__', ctx=ast.Load()), attr=f[1], ctx=ast.Load()), node),
+                                       {'__mc_obj__': args[0]}, None)
+            return self.apply(callee, list(ma), dict(mk), node)
         if isinstance(f, tuple) and len(f) == 3 and f[0] == 'ntmethod':
             obj, name = f[1], f[2]
             flds = obj.attrs['__fields__']
@@ -2195,6 +2417,16 @@ class AbsInt:
                 return self.summaries[key](self, args, kwargs, node)
             obj = AObj(f.info, {}, name=f.info.name)
             o, init = self.p.lookup_method(f.info, '__init__')
+            dcs = dataclass_spec(self, f.info) if init is None else None
+            if dcs is not None:
+                obj.attrs.update(dataclass_bind(self, f.info, dcs, list(args), dict(kwargs), node))
+                obj.attrs['__dataclass_fields__'] = tuple(n for n, d, m_ in dcs[0])
+                if dcs[1].get('frozen'):
+                    obj.attrs['__frozen__'] = True
+                o_, post = self.p.lookup_method(f.info, '__post_init__')
+                if post is not None:
+                    self.call_function(post, [obj], {}, node)
+                return obj
             nts = nt_spec(self, f.info) if init is None else None
             if nts is not None:
                 if self.p.lookup_method(f.info, '__new__')[1] is not None:
@@ -2256,6 +2488,57 @@ class AbsInt:
                 for it in items:
                     acc = self.apply(args[0], [acc, it], {}, node)
                 return acc
+            if key in ('functools.partial', 'partial') and args:
+                return ('partial', args[0], (tuple(args[1:]), dict(kwargs)))
+            if key in ('operator.methodcaller', 'methodcaller') and args and isinstance(args[0], str):
+                return ('methodcaller', args[0], (tuple(args[1:]), dict(kwargs)))
+            if key in ('itertools.accumulate', 'accumulate') and args:
+                items = self.iterate(args[0], node, keep_vars=True)
+                fn_ = args[1] if len(args) > 1 else kwargs.get('func')
+                out = []
+                if kwargs.get('initial') is not None:
+                    out.append(kwargs['initial'])
+                for it in items:
+                    if not out:
+                        out.append(it)
+                    elif fn_ is None:
+                        out.append(self.binop(ast.Add(), out[-1], it, node))
+                    else:
+                        out.append(self.apply(fn_, [out[-1], it], {}, node))
+                return AList(out, 'list')
+            if key in ('itertools.pairwise', 'pairwise') and len(args) == 1:
+                items = self.iterate(args[0], node, keep_vars=True)
+                return AList([AList([a, b], 'tuple') for a, b in zip(items, items[1:])], 'list')
+            if key in ('itertools.takewhile', 'takewhile', 'itertools.dropwhile', 'dropwhile') and len(args) == 2:
+                items = self.iterate(args[1], node, keep_vars=True)
+                i = 0
+                while i < len(items) and self.truth(self.apply(args[0], [items[i]], {}, node), node):
+                    i += 1
+                return AList(items[:i] if key.endswith('takewhile') else items[i:], 'list')
+            if key in ('itertools.zip_longest', 'zip_longest') and args:
+                cols = [self.iterate(a, node, keep_vars=True) for a in args]
+                fill = kwargs.get('fillvalue')
+                n_ = max(len(c) for c in cols)
+                return AList([AList([c[i] if i < len(c) else fill for c in cols], 'tuple') for i in range(n_)], 'list')
+            if key in ('itertools.islice', 'islice') and len(args) in (3, 4) and all(a is None or isinstance(a, int) for a in args[1:]):
+                return AList(self.iterate(args[0], node, keep_vars=True)[slice(*args[1:])], 'list')
+            if key in ('itertools.count', 'count') and all(isinstance(a, int) for a in args) and not kwargs:
+                raise Unsupported('itertools.count(): unbounded iterator')
+            if key in ('itertools.groupby', 'groupby') and args:
+                items = self.iterate(args[0], node, keep_vars=True)
+                kf = args[1] if len(args) > 1 else kwargs.get('key')
+                groups = []
+                for it in items:
+                    kv = self.apply(kf, [it], {}, node) if kf is not None else it
+                    if groups:
+                        r = kv is groups[-1][0] or self.compare(ast.Eq(), kv, groups[-1][0], node)
+                        if r is None:
+                            raise Unsupported('groupby on keys whose equality is undecided')
+                        if r:
+                            groups[-1][1].append(it)
+                            continue
+                    groups.append((kv, [it]))
+                return AList([AList([k_, AList(g, 'list')], 'tuple') for k_, g in groups], 'list')
             if key in ('operator.attrgetter', 'attrgetter') and len(args) == 1 and isinstance(args[0], str):
                 return ('attrgetter', args[0])
             if key in ('operator.itemgetter', 'itemgetter') and len(args) == 1:
@@ -2816,7 +3099,8 @@ _NO = object()
 
 import builtins as _bi
 _BUILTIN_EXCEPTIONS = frozenset(n for n in dir(_bi) if isinstance(getattr(_bi, n), type) and issubclass(getattr(_bi, n), BaseException))
-_SAFE_DECORATORS = {'property', 'classmethod', 'staticmethod', 'contextmanager', 'setter', 'deleter', 'getter', 'abstractmethod', 'wraps'}
+_SAFE_DECORATORS = {'property', 'classmethod', 'staticmethod', 'contextmanager', 'setter', 'deleter', 'getter', 'abstractmethod', 'wraps',
+                    'dataclass', 'unique', 'final', 'overload', 'runtime_checkable'}
 _gen_cache = {}
 _glob_cache = {}
 
@@ -2993,7 +3277,7 @@ def _concretize(v, memo):
             return v
     if isinstance(v, list):
         return [concretize(x, memo) for x in v]
-    if isinstance(v, tuple) and not (v and v[0] in ('closure', 'bound', 'lambda', 'attrgetter', 'itemgetter', 'attr', 'mockmethod', 'signed', 'repattern', 'objectmethod', 'ntmake', 'ntmethod', 'excclass')):
+    if isinstance(v, tuple) and not (v and v[0] in ('closure', 'bound', 'lambda', 'attrgetter', 'itemgetter', 'attr', 'mockmethod', 'signed', 'repattern', 'objectmethod', 'ntmake', 'ntmethod', 'excclass', 'partial', 'methodcaller')):
         return tuple(concretize(x, memo) for x in v)
     if isinstance(v, dict):
         return {k: concretize(x, memo) for k, x in v.items()}
